@@ -56,14 +56,17 @@ ElemGood1(op, ev, N, ES, x, res) ==
 \* (sin_cos is not among the functions C15 lists and is in fact far less accurate than sin and cos --
 \*  sin_cos(4.0) is 137 / 1340 encodings off -- so its value is left unspecified: UnspecOps)
 ElemGood(ev, N, ES, x) == ElemGood1(ev.op, ev, N, ES, x, ev.r)
-\* diagnosis of a C15 failure: the smallest excess j in 1..11 for which the result is within Bound + j (99: further off)
+\* diagnosis of a C15 failure: an upper bound of the excess -- the first j of the ladder for which the result is within
+\* Bound + j encodings (99: further off than Bound + 59)
 W15(ev, N, ES, x, j) ==
   LET b2 == IF Len(x) > 1 THEN x[2] ELSE <<>>
       v1 == V15K(ev.op, N, ES, x[1], b2, ev.r, 64, Bound(ev.op) + j)
   IN IF v1 # "undecided" THEN v1 ELSE V15K(ev.op, N, ES, x[1], b2, ev.r, 200, Bound(ev.op) + j)
+ExcessLadder == <<1, 2, 3, 5, 8, 11, 16, 27, 59>>
 RECURSIVE ExcessFrom(_, _, _, _, _)
-ExcessFrom(ev, N, ES, x, j) ==
-  IF j > 11 THEN 99 ELSE IF W15(ev, N, ES, x, j) # "wrong" THEN j ELSE ExcessFrom(ev, N, ES, x, j + 1)
+ExcessFrom(ev, N, ES, x, i) ==
+  IF i > Len(ExcessLadder) THEN 99
+  ELSE IF W15(ev, N, ES, x, ExcessLadder[i]) # "wrong" THEN ExcessLadder[i] ELSE ExcessFrom(ev, N, ES, x, i + 1)
 Excess15(ev, N, ES, x) == ExcessFrom(ev, N, ES, x, 1)
 
 -----------------------------------------------------------------------------
